@@ -52,6 +52,15 @@ Proof. vm_compute. auto. Qed.
 Theorem C06_user_abort_has_precedence : USER_ABORT_HAS_PRECEDENCE = true.
 Proof. reflexivity. Qed.
 
+(* Two more facts the model relies on, read off the source: the peer's repeated PeerTransferQueue request re-queues
+   an existing upload only from FAILED / COMPLETE (the model's PeerMsg; in particular not a PAUSED one), and the
+   transfer manager creates no task outside the three slot-holding sites (everything it starts for a transfer
+   is reachable for cancellation). *)
+Theorem C06_peer_requeues_only_finished : PEER_REQUEUES_ONLY_FINISHED = true.
+Proof. reflexivity. Qed.
+Theorem C06_tasks_only_in_slots : TASKS_ONLY_IN_SLOTS = true.
+Proof. reflexivity. Qed.
+
 (* remove() (repair F30: whatever the abort inside it did, remove() cancels and awaits what the slots still
    hold before it drops the transfer).  For every direction and every event list, nothing of a removed
    transfer connects, sends or changes a field -- also when the transfer was already finished. *)
